@@ -275,8 +275,10 @@ def expiry_rules(R, pfx="C13"):
                    "a quote dated in the future is not reported expired: the error of duration_since is replaced by a default (%s) before the comparison" % erased[0], he, he.lines[0])
             R.inst(pfx + ".expiry.future", "K4 gate", "future-dated quote is reported expired", 0, False)
         elif direct:
-            R.gate(pfx + ".expiry.future", he, RetSink("true"), [[CallGuard(["std::time::SystemTime::duration_since"], ("Err",), "duration_since(timestamp) is Err (future-dated)")]],
-                   descr="future-dated quote is reported expired")
+            # stated on the `false` side, so that it reads the same whether `true` is an explicit `return true` in the Err arm or the
+            # default of `map_or(true, ..)`: has_expired answers false only behind duration_since == Ok
+            R.gate(pfx + ".expiry.future", he, RetSink("false", computed=True), [[CallGuard(["std::time::SystemTime::duration_since"], ("Ok",), "duration_since(timestamp) is Ok (not future-dated)")]],
+                   descr="future-dated quote is reported expired (not-expired only behind duration_since == Ok)")
         else:
             # a helper propagates the failure as Err/None: has_expired must turn that into `true`
             helpers = [n for n in chain if n in F.by_npath and n.startswith("ant_evm::")]
